@@ -188,7 +188,7 @@ class C16(Harness):
                 Xq = X.copy()
                 Xq["prim"] = [1.5] + [float("nan")] + [2.5] * (ni - 2)
                 try:
-                    out["primitive"] = {"full": rows_of(apply(Xq)), "single": rows_of(apply(Xq.iloc[[1]].reset_index(drop=True)))}
+                    out["primitive"] = {"full": rows_of(apply(Xq)), "single": rows_of(apply(Xq.iloc[[1]].reset_index(drop=True))), "perm_keep": rows_of(apply(Xq.iloc[inp["perm"]]))}
                 except Exception as e:  # noqa
                     if type(e).__module__.startswith("vf."):
                         raise
@@ -284,6 +284,10 @@ class C16(Harness):
                 P.check("row-count-and-order", len(pr["full"]) == ni and len(pr["single"]) == 1, dp_)
                 if len(pr["full"]) == ni and len(pr["single"]) == 1:
                     self._same_nan(P, "single-instance-equals-batch-row", pr["single"][0], pr["full"][1], dp_)
+                    P.check("row-count-and-order", len(pr["perm_keep"]) == ni, dict(dp_, instance_labels="kept"))
+                    for r_, src_ in enumerate(inp["perm"]):
+                        if r_ < len(pr["perm_keep"]):
+                            self._same_nan(P, "permutation-equivariant", pr["perm_keep"][r_], pr["full"][src_], dict(dp_, instance_labels="kept"))
         if "labels" in out:
             lb = out["labels"]
             P.check("row-count-and-order", len(lb["full"]) == ni and len(lb["perm"]) == ni and len(lb["single"]) == 1, dict(d, what="predict"))
